@@ -129,6 +129,14 @@ CLAIMED.update({
     ref="DESIGN.md §4 C13"),
 })
 
+CLAIMED.update({
+  "C14": dict(
+    text="A typestate of strings, decided statically. A styled text is in normal form when it consists of plain characters and line feeds with no attribute active and of units `openers, ONE character, reset`; in such a text every character carries exactly the attributes of its own unit, nothing is active at a line feed or at the end, and concatenating, repeating, splitting or cutting normal-form texts at line feeds keeps the form. Decided: ansi.Apply — shown to be the only place with graphic-rendition escape constants — emits for every character other than a line feed exactly one opener carrying its style parameter, the character's own previous openers, the character and a reset, and emits line feeds bare (symbolic evaluation of the concatenation, lexed into opener / openers-of-match / character-of-match / reset events, with the branch fact `letter != \\n`); every function of packages ansi and style that returns a string returns normal form for normal-form parameters: an automaton (closed, opened, lettered) is run over what each returned value is concatenated from — lexed constants, pieces of a match of ansi.expand, parameters, slices of matches, results of the layer's own functions and of form-preserving library calls (Repeat, Join/Split at line feeds, cuts at the index of a line feed, trimming of blanks, strings.Builder writes) — with loop accumulators treated coinductively; outside package ansi no instruction looks inside a string that can carry styling (whole-program forward value flow from every ansi.Apply result to string slicing, indexing, conversion to runes/bytes, ranging and character-editing library calls; a regexp that only splits off blanks at one end is recognised with regexp/syntax). By induction over the calls every string the styling layer hands out is in normal form, for all nestings, concatenations and layout operations.",
+    note="Assumed: the regexp semantics of ansi.expand's pattern (its shape is checked under C13.R0); ESC[0m means all attributes off; raw text contains no escape byte (C01). Not decided: what a terminal does with a given SGR parameter; that the style parameter is a valid SGR parameter (C01.R3 decides what it is built from); content preservation by the layout functions (C13); a design that styles runs of characters with one opener and one reset would be reported as not established.",
+    technique="static typestate analysis of string values (automaton over symbolically evaluated concatenations, coinductive over loop accumulators) + whole-program forward value flow (taint) to string-inspecting operations + constant scan",
+    ref="DESIGN.md §4 C14"),
+})
+
 NOT_APPLICABLE = {
   "C14": "per-character attribute sets after arbitrary nesting and layout are string values; the structural facts available (single SGR emitter) are not necessary conditions of this property (DESIGN.md §5)",
 }
